@@ -159,9 +159,18 @@ CLAIMED = {
          "the concatenation in commit order of the payloads of the committed events, no event is committed twice, hence no transaction is committed twice when "
          "admitted events have duplicate-free pairwise disjoint payloads -- which the pool theorem gives node by node when accepted transactions are distinct "
          "(C05_submitted_committed_at_most_once) --, and every committed transaction is in the payload of an admitted (stored, signed, attempted) event; the same "
-         "is evaluated by the oracle on every history",
-         "11 theorems, no axioms; the pool model abstracts the hashgraph to the insertion outcome, the commit-side theorems are on HgImpl; that both are driven by "
-         "the same node is the hypothesis from_pools (each event carries the payload its creator captured), checked by the correspondence, not proved",
+         "is evaluated by the oracle on every history. COMBINED MODEL (Model/CoreModel.v: pools, head, seq of core.go over the hashgraph model; addTransactions, "
+         "addInternalTransaction, addSelfEvent incl. the d513dd9 case, insertEventAndRunConsensus, the loop of sync, processSigPool), for every operation sequence "
+         "from the initial state: the hashgraph component is an hrun state; the node's own stored events are exactly the self-events of addSelfEvent, in order, "
+         "with the payloads captured from the pools, seq/head are those of the last one; what addTransactions accepted = payloads of the own stored events ++ pool "
+         "(the statement of the Go oracle `conservation`), each accepted transaction in exactly one own event or in the pool; a transaction committed through an "
+         "own event was accepted, none twice; the former hypothesis from_pools is a theorem (C05_nodes_from_pools) and "
+         "C05_submitted_committed_at_most_once_cores has no pool hypothesis left. The runner drives this model (extracted) for every T line and every inserted "
+         "event: a self-event is BUILT by the model from its pools, head and seq and compared with the implementation's",
+         "19 theorems, no axioms; premises: identifiers determine events among the events handed to the hashgraph (freshness of self-event identifiers follows), "
+         "an event claiming the node as creator does not verify unless the node made it (e_sigok is data); network-level premise of the last theorem (an admitted "
+         "event is stored at its creator's node) is not derived from a network model; the pool of own block signatures is an input of CoreModel (C09), the "
+         "internal-transaction pool is not observable in the trace (loaded from the self-event by the runner); fast-forward / bootstrap outside CoreModel",
          "Coq invariant over operation lists + pool-level correspondence + conservation oracle with fault injection"),
  "C06": ("PARTIAL. Proved in Coq: the idle condition (busy = false iff nothing pending), a successful self-event empties the pools, the voting loop never gets "
          "stuck in a well-formed view and decides as soon as a deciding witness exists; the deterministic core of termination on the abstract voting loop: "
